@@ -259,6 +259,59 @@ Theorem C16_token_stale_refuted :
 Proof. exact (token_stale_refuted c_tokenPeriod_ns eq_refl). Qed.
 Print Assumptions C16_token_stale_refuted.
 
+(* --------------------------------------------------- UploadStartTime, histories of starts *)
+
+(* Config.UploadStartTime (the uploader's simulated clock) has no part in the
+   launch decision: the token's age is measured on the real clock. *)
+Theorem C16_upload_start_time_irrelevant : forall fuel e a b marker uv c s1 s2 file ld period now tok,
+  program_run_cfg e a b marker uv c s1 file ld period now tok
+  = program_run_cfg e a b marker uv c s2 file ld period now tok /\
+  spawned_cfg fuel e a b marker uv c s1 file ld period now tok
+  = spawned_cfg fuel e a b marker uv c s2 file ld period now tok.
+Proof. exact upload_start_time_irrelevant. Qed.
+Print Assumptions C16_upload_start_time_irrelevant.
+
+(* Every history of starts one after the other, at any real times and with any
+   UploadStartTime values: two acquisitions of the token are at least 24 h of
+   real time apart (and the first at least 24 h after a token found at the
+   beginning) ... *)
+Theorem C16_history_is_spaced : forall starts tok,
+  history_spaced c_tokenPeriod_ns tok
+    (combine (map fst starts) (fst (history_run c_tokenPeriod_ns starts tok))) = true.
+Proof. exact (history_is_spaced c_tokenPeriod_ns). Qed.
+Print Assumptions C16_history_is_spaced.
+
+(* ... a refused start does not touch the token (the 24 h run from the last
+   ACQUISITION, not from the last attempt), an acquisition stamps it with the
+   real time ... *)
+Theorem C16_refused_start_keeps_token : forall period t tok,
+  (token_state_allows period t tok = false -> snd (acquire_seq period t tok) = tok) /\
+  (token_state_allows period t tok = true -> snd (acquire_seq period t tok) = Some t).
+Proof. exact refused_start_keeps_token. Qed.
+Print Assumptions C16_refused_start_keeps_token.
+
+(* ... so a start 24 h or more after the last acquisition acquires, however
+   many refused starts came in between. *)
+Theorem C16_history_acquires_after_period : forall t s rest m, c_tokenPeriod_ns <= t - m ->
+  fst (history_run c_tokenPeriod_ns ((t, s) :: rest) (Some m))
+  = true :: fst (history_run c_tokenPeriod_ns rest (Some t)).
+Proof. exact (history_acquires_after_period c_tokenPeriod_ns). Qed.
+Print Assumptions C16_history_acquires_after_period.
+
+Theorem C16_history_refused_then_same : forall t s rest m, t - m < c_tokenPeriod_ns ->
+  history_run c_tokenPeriod_ns ((t, s) :: rest) (Some m) =
+  (false :: fst (history_run c_tokenPeriod_ns rest (Some m)), snd (history_run c_tokenPeriod_ns rest (Some m))).
+Proof. exact (history_refused_then_same c_tokenPeriod_ns). Qed.
+Print Assumptions C16_history_refused_then_same.
+
+Theorem C16_oracle_accepts_model_cfg : forall fuel e a b marker uv c s file ld period now tok,
+  let m := effective_mode (dir_known a b) (mode_of_file file) in
+  let r := program_run_cfg e a b marker uv c s file ld period now tok in
+  start_ok marker uv c m period now tok (token_created r) (fs_changed r)
+           (spawned_cfg fuel e a b marker uv c s file ld period now tok) = true.
+Proof. exact oracle_accepts_model_cfg. Qed.
+Print Assumptions C16_oracle_accepts_model_cfg.
+
 (* --------------------------------------------------- the oracle *)
 
 (* The executable oracle the correspondence suite evaluates on the observed
@@ -323,3 +376,11 @@ Example C16_example_mode_files :
   mode_of_bytes (s2b "off" ++ [10%N] ++ s2b "2024-01-05") <> s2b "off" /\ mode_of_file None = s2b "local" /\
   List.length off_spellings = 13%nat.
 Proof. repeat split; try (vm_compute; reflexivity). vm_compute. discriminate. Qed.
+
+(* starts at 0h, 13h, 26h, 27h (hours as ns), the second with UploadStartTime a
+   year ahead: acquired, refused, acquired, refused *)
+Example C16_example_history :
+  let h := 3600000000000%Z in
+  history_run c_tokenPeriod_ns [(0, None); (13 * h, Some (9000 * h)); (26 * h, None); (27 * h, None)] None
+  = ([true; false; true; false], Some (26 * h)).
+Proof. vm_compute. reflexivity. Qed.
